@@ -105,6 +105,15 @@ add('C09', 'exploration',
     'Strings compared by decoded value; ground truth from derivations; reference lexer.',
     'DESIGN.md 3/C09')
 
+add('C10', 'exploration',
+    'deviation-bounded exhaustive layout perturbation: every generated program in one-statement-per-line layouts with every '
+    'single (thorough: double) perturbed place (indentation, trailing blanks, blank-line runs, own-line comments) x indent '
+    'widths, through the real formatter; output shape judged with derivation depths and the reference lexer',
+    'fmt(variant)==fmt(base), idempotence, indentation = width x nesting depth for every code line, no trailing blanks, '
+    'no double/terminal blank lines on every enumerated case.',
+    'Token depth from the derivation; lines ending inside multi-line tokens exempt.',
+    'DESIGN.md 3/C10')
+
 PENDING = {
 }
 
